@@ -221,6 +221,29 @@ func checkC18(c c18Case, rec *Rec) *Violation {
 			return viol(id, c18Sig(c, "C18:engine-differs"), "line %q: DNSEngine.Match(%q) returns the rule under V4=%v V6=%v, want V4=%v V6=%v", line, p, in4, in6, want4, want6)
 		}
 	}
+	if hash64(line)%4 == 1 {
+		// three lists, the middle one without any rule: the line under test is in the last one
+		st3, err3 := filterlist.NewRuleStorage([]filterlist.RuleList{
+			&filterlist.StringRuleList{ID: 11, RulesText: other + "\n"},
+			&filterlist.StringRuleList{ID: 12, RulesText: "# nothing but a comment\n\n! and another\n"},
+			&filterlist.StringRuleList{ID: 13, RulesText: line + "\n"}})
+		if err3 != nil {
+			return viol(id, "C18:harness", "storage: %v", err3)
+		}
+		d3 := urlfilter.NewDNSEngine(st3)
+		for _, nm := range c.Names {
+			res, _ := d3.Match(nm)
+			found := false
+			for _, x := range append(append([]*rules.HostRule{}, res.HostRulesV4...), res.HostRulesV6...) {
+				if x.Text() == strings.TrimSpace(line) {
+					found = true
+				}
+			}
+			if !found {
+				return viol(id, c18Sig(c, "C18:engine-differs:third-of-three-lists"), "lists [%q] [comments only] [%q]: DNSEngine.Match(%q) does not return the line", other, line, nm)
+			}
+		}
+	}
 	if hash64(line)%2 == 0 {
 		// the same lines in a file, the line under test last and without a line feed
 		fst, fcleanup, ferr := buildStorage([]ListSpec{{ID: 7, Text: other + "\n" + fifth + "\n" + line, File: true}})
@@ -273,7 +296,8 @@ var c18NamePool = []string{"example.org", "a.com", "sub.a-b.co.uk", "xn--p1ai.xn
 	// names of 64 and more bytes (labels stay below 64)
 	strings.Repeat("a", 59) + ".com", strings.Repeat("a", 60) + ".com", strings.Repeat("b", 63) + "." + strings.Repeat("c", 63) + ".example",
 	strings.Repeat("d", 63) + "." + strings.Repeat("e", 63) + "." + strings.Repeat("f", 63) + "." + strings.Repeat("g", 57) + ".com"}
-var c18IPs = []string{"0.0.0.0", "127.0.0.1", "::", "::1", "::ffff:1.2.3.4", "fe80::1", "2001:db8::1", "10.1.2.3", "255.255.255.255", "0:0:0:0:0:0:0:1"}
+var c18IPs = []string{"0.0.0.0", "127.0.0.1", "::", "::1", "::ffff:1.2.3.4", "fe80::1", "2001:db8::1", "10.1.2.3", "255.255.255.255", "0:0:0:0:0:0:0:1",
+	"0000:0000:0000:0000:0000:ffff:192.168.100.200", "2001:0db8:0000:0000:0000:0000:192.168.100.100", "fe80::1%eth0"}
 
 func c18WS(t *rapid.T, label string) string {
 	return rapid.StringMatching(`[ \t]{1,3}`).Draw(t, label)
